@@ -172,6 +172,8 @@ class GenConfig:
         self.max_fanout = 3
         self.features: set[str] = set(ALL_FEATURES)
         self.p_error = 0.0  # probability that the program has one failing leaf
+        # classes a failing leaf may raise ("ErrRes": carries an object pickle refuses)
+        self.error_classes = ("ValueError", "KeyError", "ErrA", "ErrB")
         self.multi_error = False
         self.modes = ("thread",)  # executor modes available
         self.limit_names: tuple[str, ...] = ()
@@ -263,8 +265,11 @@ class Gen:
             k = 1 + (ch.choice(2, "nerr") if cfg.multi_error else 0)
             for _ in range(k):
                 t = leaves[ch.choice(len(leaves), "err-leaf")]
-                en = ["ValueError", "KeyError", "ErrA", "ErrB"][ch.choice(4, "err-cls")]
+                en = cfg.error_classes[ch.choice(len(cfg.error_classes), "err-cls")]
                 t.raises = (en, f"boom-{t.name}")
+                if en == "ErrRes":
+                    # (a process worker could not even send this error back: thread mode)
+                    t.options.pop("executor", None)
         # Defaults (expression-valued) on some non-main tasks.
         if self.has("defaults"):
             for t in prog.tasks[1:]:
@@ -772,7 +777,7 @@ from redun import task, cond, catch, apply_tags, get_context
 from redun.scheduler import catch_all
 from redun.functools import seq, map_, flat_map, apply_func, no_prov
 from redun.scheduler import fork_thread, join_thread, subrun
-from simkit.proglib import P, D, ErrA, ErrB, mix, errcode, hsum, hlist, hit
+from simkit.proglib import P, D, ErrA, ErrB, ErrRes, mix, errcode, hsum, hlist, hit
 
 redun_namespace = "{ns}"
 
